@@ -58,7 +58,9 @@ def category(ctx, lexpr, serde):
                 return code
             return None
 
-        S = sim.Sim([lexpr], hooks={"opaque": opaque}, inline=lambda a, b: b.path == f.path)
+        # classify and every helper it is split into (same module) are looked through
+        S = sim.Sim([lexpr], hooks={"opaque": opaque},
+                    inline=lambda a, b: b.crate == lexpr.name and b.file.endswith("parse/error.rs"))
         ps = [p for p in S.run(f) if p.end == "return"]
         got = {cats[p.ret.variant] if isinstance(p.ret, Adt) and p.ret.variant < len(cats) else "?" for p in ps}
         if got == {want}:
@@ -158,7 +160,8 @@ def category(ctx, lexpr, serde):
                     return ("value", args[0])
                 return None
 
-            S = sim.Sim([serde], hooks={"opaque": opaque, "call": hook}, inline=lambda a, b: b.path == sf.path)
+            S = sim.Sim([serde], hooks={"opaque": opaque, "call": hook},
+                        inline=lambda a, b: b.crate == serde.name and b.file.endswith("src/error.rs"))
             want = {"Message": "Data", "Io": "Io"}.get(name) or cname
             ps = [p for p in S.run(sf) if p.end == "return"]
             got = {scats[p.ret.variant] if isinstance(p.ret, Adt) and p.ret.variant < len(scats) else "?" for p in ps}
